@@ -70,6 +70,37 @@ def concretize(x):
     return x
 
 
+def pin_index(idx, n):
+    """Concrete value of the symbolic int idx (0 <= idx < n) by bisection: log2(n) linear comparisons decided by the solver, a
+    balanced decision tree with exactly n leaves (one path per value, no re-visits, short constraint sets)."""
+    lo, hi = 0, n
+    while hi - lo > 1:
+        mid = (lo + hi) // 2
+        if idx < mid:
+            hi = mid
+        else:
+            lo = mid
+    return lo
+
+
+def decode_point(idx, dims):
+    """One solver variable for a finite product space: idx (0 <= idx < prod(len(d) for d in dims)) is pinned by bisection and
+    decoded in mixed radix into one choice per dimension.  N points cost N paths, and CONFIRMED means all N were enumerated."""
+    idx = pin_index(idx, space_size(dims))
+    out = []
+    for d in dims:
+        out.append(d[idx % len(d)])
+        idx //= len(d)
+    return out
+
+
+def space_size(dims):
+    n = 1
+    for d in dims:
+        n *= len(d)
+    return n
+
+
 def mark(counter: str) -> None:
     """Reachability counter: this path did the non-trivial thing named `counter`."""
     if _tracing():
